@@ -49,12 +49,16 @@ NONTRIVIAL = ('shortest_int: distinct (sorted data, percent) with a repeated dat
 PERCENTS = (10, 25, 50, 75, 90, 99.99)
 # the statement quantifies over percentages in (0, 100): values below 1 (lag 0 on short data, lag >= 1 only on records of
 # more than 100/p samples), around 1, non-integer values with an exact product (12.5 % of 8), and values close to 100
-PERCENTS_EDGE = (0.01, 0.25, 0.5, 0.9, 0.99, 1, 1.5, 12.5, 37.5, 62.5, 99, 99.5, 99.9, 99.999)
+PERCENTS_EDGE = (1e-9, 0.01, 0.25, 0.5, 0.9, 0.99, 1, 1.5, 12.5, 37.5, 62.5, 99, 99.5, 99.9, 99.999, 99.9999999)
 PSETS = {'std': PERCENTS, 'edge': PERCENTS_EDGE}
 ALPHABETS = {
     'int4': (0.0, 1.0, 2.0, 3.0),
     'mix': (0.0, 0.5, 1e-3, 7.0),
     'tiny': (0.0, 1e-11, 2e-11, 3e-11),
+    # large scale, window widths that differ by 1e-9 of their size (a RELATIVE tie tolerance confuses them)
+    'near': (0.0, 1e6, 2e6 + 1e-3, 3e6 + 3e-3),
+    # large offset, variation of one unit in the last place (differences are exact multiples of eps)
+    'ulp': (1.0, 1.0 + 2.0 ** -52, 1.0 + 2.0 ** -51, 1.0 + 3 * 2.0 ** -52),
     'i64': (0, 1, 2, 3),
     'i32s': (-2, -1, 0, 1),       # signed raw counts
     'u16': (0, 1, 2, 3),          # unsigned raw counts
@@ -63,9 +67,20 @@ ALPHABETS = {
 ALPHA_DTYPE = {'i64': np.int64, 'i32s': np.int32, 'u16': np.uint16, 'i16fs': np.int16}
 # input classes whose failures get their own keys (one defect class: the arithmetic is carried out in the input's own integer
 # dtype and wraps around)
-SI_WRAP = {'i16fs': 'full-scale-int16-input', 'i2fs': 'full-scale-int16-input'}
+SI_WRAP = {'i16fs': 'full-scale-int16-input', 'i2fs': 'full-scale-int16-input', 'i1': 'full-scale-int8-input'}
 EPS = float(np.finfo(float).eps)
 EPS32 = float(np.finfo(np.float32).eps)
+EPS16 = float(np.finfo(np.float16).eps)
+
+
+def work_dtype(a):
+    """the floating-point type the library's arithmetic on `a` is carried out in (integer records are converted to float64)"""
+    dt = np.asarray(a).dtype
+    return dt if dt.kind == 'f' else np.dtype(float)
+
+
+def work_eps(wt):
+    return {2: EPS16, 4: EPS32}.get(np.dtype(wt).itemsize, EPS)
 
 
 # ------------------------------------------------------------------ lag
@@ -95,6 +110,8 @@ def ref_small(s, lag):
         widths = [b - a for a, b in pairs]
         m = min(widths)
         r = (m, sum(1 for w in widths if w == m), frozenset(pairs), len(pairs))
+        if n > 12:          # the lag-scan vectors: each (vector, lag) is asked for once or twice
+            return r
         if len(_REF) > 200000:
             _REF.clear()
         _REF[k] = r
@@ -127,14 +144,60 @@ def si_eval(values, p, dtype=float, wrap=None):
     return key, msg, otag, nt
 
 
-def _si_eval(values, p, dtype):
+# ---- spellings of the two arguments (the statement quantifies over data sets and percentages, not over their Python types)
+# data: the float64 ndarray is the base form; array-likes (list/tuple of floats, of Python ints), narrower dtypes (the
+# alphabet {0,1,2,3} is exact in all of them), a write-protected buffer, a strided view of a larger buffer
+DATA_FORMS = ('ndarray', 'list', 'tuple', 'int-list', 'int-tuple', 'f4', 'f2', 'i1', 'u1', 'readonly', 'strided')
+# percent: Python int is the base form; Python float, numpy scalars, 0-d arrays, the keyword spelling.  Only values that every
+# form represents exactly are used (integers; 12.5 in the floating forms), so the lag is the same number in every form
+PCT_FORMS = ('py', 'float', 'np.int64', 'np.int32', 'np.uint8', 'np.float64', 'np.float32', '0d-int', '0d-float', 'kw')
+PCT_INT_FORMS = ('py', 'np.int64', 'np.int32', 'np.uint8', '0d-int', 'kw')
+FORM_PERCENTS = (10, 25, 50, 75, 90, 12.5)
+_DFORM_DTYPE = {'f4': np.float32, 'f2': np.float16, 'i1': np.int8, 'u1': np.uint8}
+
+
+def make_data(values, dform):
+    if dform in ('list', 'tuple'):
+        return (list if dform == 'list' else tuple)(float(v) for v in values)
+    if dform in ('int-list', 'int-tuple'):
+        return (list if dform == 'int-list' else tuple)(int(v) for v in values)
+    if dform in _DFORM_DTYPE:
+        return np.array(values, dtype=_DFORM_DTYPE[dform])
+    if dform == 'strided':
+        buf = np.full(2 * len(values), -99.0)
+        buf[::2] = values
+        return buf[::2]
+    a = np.array(values, dtype=float)
+    if dform == 'readonly':
+        a.flags.writeable = False
+    return a
+
+
+def make_percent(p, pform):
+    if pform in ('py', 'kw'):
+        return p
+    if pform == 'float':
+        return float(p)
+    if pform == '0d-int':
+        return np.array(int(p))
+    if pform == '0d-float':
+        return np.array(float(p))
+    return getattr(np, pform[3:])(p)
+
+
+def _si_eval(values, p, dtype, dform=None, pform=None):
     from opticomlib.utils import shortest_int
-    data = np.array(values, dtype=dtype)
+    data = np.array(values, dtype=dtype) if dform is None else make_data(values, dform)
     n = len(values)
     lags = lag_set(n, p)
     s = tuple(sorted(float(v) for v in values))
     try:
-        out = shortest_int(data, p)
+        if pform is None:
+            out = shortest_int(data, p)
+        elif pform == 'kw':
+            out = shortest_int(data, percent=p)
+        else:
+            out = shortest_int(data, make_percent(p, pform))
     except Exception as e:  # the statement requires a return value for every data set and p in (0,100)
         if lags and max(lags) == 0:
             key = 'SI:lag0:exception'
@@ -217,6 +280,104 @@ def si_single(case):
     return res(viol=[(key, msg)] if key else [], obs=otag, nontrivial=nt if nt is not None else False)
 
 
+# ------------------------------------------------------------------ argument spellings
+def form_percents(pform):
+    return tuple(p for p in FORM_PERCENTS if isinstance(p, int) or pform not in PCT_INT_FORMS)
+
+
+def si_form_eval(vec, p, dform, pform):
+    """one vector in one (data form, percent form).  A failure that the base form (float64 ndarray, Python number) shows
+    as well keeps its key; a failure that only the spelling shows gets the key of the spelling."""
+    key, msg, otag, nt = _si_eval(vec, p, float, dform, pform)
+    if key is not None:
+        bkey = _si_eval(vec, p, float)[0]
+        if bkey is None:
+            key, msg = f'SI:form-dependent:data={dform},percent={pform}', f'[{key}] (the float64-ndarray / Python-number call ' \
+                                                                         f'of the same input is right) ' + msg
+    return key, msg, otag, nt
+
+
+def si_forms_batch(case):
+    """case = (length, data form, percent form): every vector of that length over {0,1,2,3} x the form's percentages"""
+    length, dform, pform = case
+    ncall = 0
+    nts, outs, fails = set(), set(), {}
+    h = zlib.crc32(b'')
+    for vec in itertools.product(ALPHABETS['int4'], repeat=length):
+        for p in form_percents(pform):
+            key, msg, otag, nt = si_form_eval(vec, p, dform, pform)
+            ncall += 1
+            outs.add(otag)
+            h = zlib.crc32(repr((vec, p, otag[2:], key)).encode(), h)
+            if nt is not None:
+                nts.add((nt, dform, pform))
+            if key is not None and key not in fails:
+                fails[key] = (vec, p, dform, pform, msg)
+    return res(obs=(case, ncall, h), nontrivial=False, stats={'si_form_calls': ncall},
+               payload={'n': ncall, 'nt': nts, 'outs': outs, 'fails': fails})
+
+
+def si_form_single(case):
+    vec, p, dform, pform = case
+    key, msg, otag, nt = si_form_eval(tuple(vec), p, dform, pform)
+    return res(viol=[(key, msg)] if key else [], obs=otag, nontrivial=(nt, dform, pform) if nt is not None else False)
+
+
+# ------------------------------------------------------------------ lag scan
+SCAN_KINDS = ('perm', 'quad', 'perm-i8')
+
+
+@functools.lru_cache(maxsize=None)
+def scan_vector(kind, n):
+    """'perm': a fixed permutation of 0..n-1 (every window lag apart has width lag: the returned pair SHOWS the lag used);
+    'quad': the same permutation of the triangular numbers k(k+1)/2 (unique minimum at the lowest window)"""
+    m = next(k for k in range(max(1, int(0.618 * n)), 2 * n + 2) if math.gcd(k, n) == 1)
+    perm = [(k * m + 1) % n for k in range(n)]
+    if kind == 'quad':
+        return tuple(float(t * (t + 1) // 2) for t in perm)
+    return tuple(perm) if kind == 'perm-i8' else tuple(float(t) for t in perm)
+
+
+def scan_percents(quick):
+    """every multiple of 1/2 (thorough: 1/4) in (0, 100); whole numbers as Python ints"""
+    d = 2 if quick else 4
+    return tuple(k // d if k % d == 0 else k / d for k in range(1, 100 * d))
+
+
+def si_scan_eval(kind, n, p):
+    key, msg, otag, _ = _si_eval(scan_vector(kind, n), p, np.int64 if kind == 'perm-i8' else float)
+    lag = lag_set(n, p)[0]
+    if key is not None:
+        msg = f'[{kind} vector of length {n}, p*len/100 = {Fraction(str(p)) * n / 100}] ' + msg
+    return key, msg, otag[2:], ((kind, n, p) if lag >= 1 and n - lag >= 2 else None)
+
+
+def si_scan_batch(case):
+    """case = (length, quick?): every scan percentage x the scan vectors of that length"""
+    n, quick = case
+    ncall = 0
+    nts, outs, fails = set(), set(), {}
+    h = zlib.crc32(b'')
+    for p in scan_percents(quick):
+        for kind in SCAN_KINDS:
+            key, msg, o, nt = si_scan_eval(kind, n, p)
+            ncall += 1
+            outs.add((kind, n, p, o))
+            h = zlib.crc32(repr((kind, p, o, key)).encode(), h)
+            if nt is not None:
+                nts.add(nt)
+            if key is not None and key not in fails:
+                fails[key] = (kind, n, p, msg)
+    return res(obs=(case, ncall, h), nontrivial=False, stats={'si_scan_calls': ncall},
+               payload={'n': ncall, 'nt': nts, 'outs': outs, 'fails': fails})
+
+
+def si_scan_single(case):
+    kind, n, p = case
+    key, msg, o, nt = si_scan_eval(kind, n, p)
+    return res(viol=[(key, msg)] if key else [], obs=(kind, n, p, o), nontrivial=nt if nt is not None else False)
+
+
 # ------------------------------------------------------------------ seeded long data
 def _rs(seed, *what):
     return np.random.RandomState(zlib.crc32(repr((seed,) + what).encode()) & 0x7FFFFFFF)
@@ -244,22 +405,36 @@ def gen_data(kind, n, seed):
     raise KeyError(kind)
 
 
-# dtype forms of a record: 'f8' is the float64 record itself; 'f4' its float32 rounding; the integer forms are raw counts
-# (1 unit = 1000 counts: +-4 sigma = +-4000 counts, the +-10 sigma outliers = +-10000 counts fit int16, no difference of two
-# samples leaves the dtype); the unsigned form rides on a 20000-count offset (all samples 10000..30000 fit uint16);
-# 'i2fs' is a full-scale int16 capture (1 unit = 3000 counts: +-10 sigma = +-30000, so differences of two samples do not fit
-# int16 although every sample does)
-COUNTS = {'i2': (1000, 0), 'i4': (1000, 0), 'i8': (1000, 0), 'u2': (1000, 20000), 'i2fs': (3000, 0)}
-NP_DTYPE = {'f8': np.float64, 'f4': np.float32, 'i2': np.int16, 'i4': np.int32, 'i8': np.int64, 'u2': np.uint16,
-            'i2fs': np.int16}
+# dtype forms of a record: 'f8' is the float64 record itself; 'f4' / 'f2' its float32 / float16 rounding; the integer forms
+# are raw counts (1 unit = 1000 counts: +-4 sigma = +-4000 counts, the +-10 sigma outliers = +-10000 counts fit int16, no
+# difference of two samples leaves the dtype); the unsigned form rides on a 20000-count offset (all samples 10000..30000 fit
+# uint16); 'i2fs' is a full-scale int16 capture (1 unit = 3000 counts: +-10 sigma = +-30000, so differences of two samples do
+# not fit int16 although every sample does); 'i1' / 'u1' are 8-bit captures (1 unit = 10 counts: +-10 sigma = +-100 fits
+# int8, differences do not; uint8 on a 128-count offset)
+COUNTS = {'i2': (1000, 0), 'i4': (1000, 0), 'i8': (1000, 0), 'u2': (1000, 20000), 'i2fs': (3000, 0), 'i1': (10, 0),
+          'u1': (10, 128)}
+NP_DTYPE = {'f8': np.float64, 'f4': np.float32, 'f2': np.float16, 'i2': np.int16, 'i4': np.int32, 'i8': np.int64,
+            'u2': np.uint16, 'i2fs': np.int16, 'i1': np.int8, 'u1': np.uint8}
+# value forms of the float64 record: x -> x*scale + offset.  The statement has no unit (scale) and no reference level (offset):
+# 'ulp' is a record whose whole variation is a few hundred units in the last place of its offset (a 12-bit step is far below
+# one ulp there: the clauses hold up to the rounding of the offset, which is what the tolerance of adc_clauses expresses)
+XFORM = {'x1e-12': (1e-12, 0.0), 'x1e-9': (1e-9, 0.0), 'x1e-6': (1e-6, 0.0), 'x1e6': (1e6, 0.0),
+         'o1e6': (1.0, 1e6), 'o1e9': (1e-3, -1e9), 'ulp': (1e-14, 1.0)}
 
 
-def as_dtype(base, dt, unsigned_abs=False):
-    """float64 record -> the dtype form `dt` (see COUNTS); never constant"""
+def as_dtype(base, dt, unsigned_abs=False, component=False):
+    """float64 record -> the dtype / value form `dt` (see COUNTS, XFORM); never constant.
+    component=True: a noise component (it takes the scale of a value form, not its offset)"""
     if dt == 'f8':
         return base
-    if dt == 'f4':
-        x = base.astype(np.float32)
+    if dt in XFORM:
+        scale, off = XFORM[dt]
+        x = base * scale + (0.0 if component else off)
+        if np.ptp(x) == 0:
+            x[0] = np.nextafter(x[0], np.inf)
+        return x
+    if dt in ('f4', 'f2'):
+        x = base.astype(NP_DTYPE[dt])
     else:
         scale, off = COUNTS[dt]
         c = np.round(base * scale)
@@ -276,18 +451,20 @@ def as_dtype(base, dt, unsigned_abs=False):
 
 
 def gen_signal(kind, n, seed):
-    """kind = '<family>' (float64) or '<family>@<dtype form>'"""
+    """kind = '<family>' (float64) or '<family>@<dtype or value form>'"""
     fam, _, dt = kind.partition('@')
     return as_dtype(gen_data(fam, n, seed), dt or 'f8')
 
 
 def ref_long(x, lag):
-    """-> (sorted, min width, indices of minimal windows)"""
-    s = np.sort(np.asarray(x, dtype=float))
+    """-> (sorted, min width, indices of minimal windows).  float32 / float16 records are sorted and subtracted in their own
+    arithmetic: rounding is monotone, so fl(w_ret) > fl(w_min) implies w_ret > w_min in the reals whichever precision the
+    library used, and windows whose widths round to the same number are all accepted."""
+    s = np.sort(np.asarray(x, dtype=work_dtype(x)))
     n = len(s)
     w = s[lag:] - s[:n - lag]
     m = w.min()
-    return s, float(m), np.flatnonzero(w == m)
+    return s, m, np.flatnonzero(w == m)
 
 
 def si_long(case):
@@ -321,10 +498,10 @@ def si_long(case):
             v = ('SI:lo>hi', f'{name} -> ({lo!r}, {hi!r})')
         elif not np.any(s[ilo + lag] == hi):
             v = ('SI:not-lag-apart', f'{name} -> ({lo!r}, {hi!r}): not order statistics {lag} apart')
-        elif hi - lo > m:
-            cls = 'within-abs-1e-10' if hi - lo - m < 1e-10 else ('tied-minima' if len(imin) > 1 else 'unique-minimum')
+        elif s.dtype.type(hi) - s.dtype.type(lo) > m:
+            cls = 'within-abs-1e-10' if hi - lo - float(m) < 1e-10 else ('tied-minima' if len(imin) > 1 else 'unique-minimum')
             v = (f'SI:not-shortest:{cls}', f'{name} -> ({lo!r}, {hi!r}) width {hi - lo!r}; the closest order statistics '
-                 f'{lag} apart have width {m!r} ({len(imin)} windows, first at sorted index {int(imin[0])}: '
+                 f'{lag} apart have width {float(m)!r} ({len(imin)} windows, first at sorted index {int(imin[0])}: '
                  f'({s[imin[0]]!r}, {s[imin[0] + lag]!r}))')
         else:
             v = None
@@ -343,24 +520,43 @@ def si_long(case):
 
 # ------------------------------------------------------------------ ADC
 ADC_KINDS = ('gauss', 'uniform', 'sine', 'quant16', 'gauss_out')
-ADC_LENGTHS = (2, 3, 100, 9999, 10000, 20000, 2 ** 17)
-ADC_FORMS = ('ndarray', 'container', 'container+noise')
-ADC_DTYPES = ('f8', 'i4', 'i8', 'i2', 'f4', 'u2', 'i2fs')     # see COUNTS
+# 127 (prime) and 1024 behave like every record of fewer than 10^4 samples (lag = len-1: the range is [min, max]); 9999, 10^4
+# and 10^4+1 straddle the length at which the 99.99 % rule starts to exclude a sample (10001 is the first with two windows)
+ADC_LENGTHS = (2, 3, 100, 127, 1024, 9999, 10000, 10001, 20000, 2 ** 17)
+ADC_LENGTHS_THIN = (2, 3, 100, 10000, 10001, 20000)      # quick tier, forms other than the float64 base
+# input forms: bare ndarray; the library container without / with a noise component of the signal's dtype; with an all-zero
+# noise component; with a noise component of ANOTHER dtype (float32 on a float64 signal, float64 on everything else: the
+# container converts both to the common type); 'chain:<n><otype>' = the OUTPUT of a first conversion of the 'container+noise'
+# input (a quantised record produced by the library itself: 8 / 4096 volt levels, 256 integer codes)
+ADC_FORMS_BASE = ('ndarray', 'container', 'container+noise')
+ADC_FORMS_NEW = ('container+zero-noise', 'container+other-noise', 'chain:3v', 'chain:8n', 'chain:12v')
+ADC_FORMS = ADC_FORMS_BASE + ADC_FORMS_NEW
+ADC_DTYPES_BASE = ('f8', 'i4', 'i8', 'i2', 'f4', 'u2', 'i2fs')     # see COUNTS
+ADC_DTYPES_NEW = ('f2', 'i1', 'u1') + tuple(XFORM)                 # 8-bit captures, float16, scales and offsets (see XFORM)
+ADC_DTYPES = ADC_DTYPES_BASE + ADC_DTYPES_NEW
+# spellings of the call: keyword (base) / positional / explicit fs=None; n as numpy integer scalars and a 0-d array; otype as
+# numpy string, or left out (the statement's `ADC(x, n)` is then bound by the volt clauses); a configured global grid
+ADC_CALLFORMS = ('kw', 'pos', 'fs=None', 'n:int64', 'n:int32', 'n:uint8', 'n:0d', 'otype:str_', 'otype:default',
+                 'gv:sps,R', 'gv:sps,fs')
+GV_FORMS = {'gv:sps,R': dict(sps=8, R=1e9), 'gv:sps,fs': dict(sps=7, fs=12.5e9 + 0.5, wavelength=1310e-9, N=5)}
 ADC_NS = tuple(range(1, 13))
 ADC_SWEEP = tuple((n, o) for n in ADC_NS for o in ('n', 'v'))  # the conversions applied to ONE shared input object
 CLAUSES = ('length', 'integer-codes', 'saturation', 'range', 'levels', 'half-step')
 CLAUSE_KEY = {'length': 'ADC:length', 'integer-codes': 'ADC:non-integer-codes', 'range': 'ADC:out-of-range',
               'levels': 'ADC:levels>2^n', 'half-step': 'ADC:inside-moves>half-step'}
 # input classes whose failures get their own keys: the arithmetic of the input's own integer dtype wraps around
-WRAP_DTYPES = {'u2': 'unsigned-int-input', 'i2fs': 'full-scale-int16-input'}
+WRAP_DTYPES = {'u2': 'unsigned-int-input', 'i2fs': 'full-scale-int16-input', 'u1': 'unsigned-int-input',
+               'i1': 'full-scale-int8-input'}
 
 
-def adc_candidates(x):
-    """all minimal (V_min, V_max) value pairs of the 99.99 % rule (brute force), for every admissible lag"""
+def adc_candidates(x, wt=float):
+    """all minimal (V_min, V_max) value pairs of the 99.99 % rule (brute force), for every admissible lag; wt: the floating
+    type the library's arithmetic on this input is carried out in (widths are compared in that arithmetic, see ref_long)"""
     n = len(x)
+    xw = np.asarray(x, dtype=wt)
     cands = []
     for lag in lag_set(n, 99.99):
-        s, m, imin = ref_long(x, lag)
+        s, m, imin = ref_long(xw, lag)
         for i in imin:
             c = (float(s[i]), float(s[i + lag]))
             if c not in cands:
@@ -429,10 +625,15 @@ def adc_clauses(x, out, n, otype, vmin, vmax, model, eps=EPS):
 
 
 def adc_input(kind, length, dt, form, seed):
-    """-> (argument for ADC, float64 copy of the real signal the converter has to quantise).
-    The integer forms are exact in float64; for float32 the reference is the float32 sum signal+noise (the real sum is
-    within eps32 of it, which the float32 tolerance of adc_clauses covers)."""
+    """-> (argument for ADC, float64 copy of the real signal the converter has to quantise, working float type).
+    The integer forms are exact in float64; for float32 / float16 the reference is the sum signal+noise in that type (the real
+    sum is within one rounding of it, which the tolerance of adc_clauses in that type covers)."""
     from opticomlib.typing import electrical_signal
+    if form.startswith('chain:'):
+        first, _, _ = adc_input(kind, length, dt, 'container+noise', seed)
+        arg = adc_call(first, int(form[6:-1]), form[-1])
+        x = adc_output(arg)
+        return arg, np.array(x, dtype=float), work_dtype(x)
     sig = as_dtype(gen_data(kind, length, seed), dt)
     if form == 'ndarray':
         arg, x = sig, sig
@@ -440,10 +641,33 @@ def adc_input(kind, length, dt, form, seed):
         arg = electrical_signal(sig)
         x = arg.signal
     else:
-        noise = as_dtype(0.05 * _rs(seed, 'noise', kind, length).normal(0.0, 1.0, length), dt, unsigned_abs=True)
+        nbase = 0.05 * _rs(seed, 'noise', kind, length).normal(0.0, 1.0, length)
+        if form == 'container+noise':
+            noise = as_dtype(nbase, dt, unsigned_abs=True, component=True)
+        elif form == 'container+zero-noise':
+            noise = np.zeros_like(sig)
+        else:
+            unit = COUNTS[dt][0] if dt in COUNTS else XFORM.get(dt, (1.0, 0.0))[0]
+            noise = (nbase * unit).astype(np.float32 if sig.dtype == np.float64 else np.float64)
         arg = electrical_signal(sig, noise)
         x = arg.signal + arg.noise
-    return arg, np.array(x, dtype=float)
+    return arg, np.array(x, dtype=float), work_dtype(x)
+
+
+def adc_call(arg, n, otype, cform='kw'):
+    from opticomlib.devices import ADC
+    if cform == 'pos':
+        return ADC(arg, None, n, otype)
+    if cform == 'fs=None':
+        return ADC(arg, fs=None, n=n, otype=otype)
+    if cform.startswith('n:'):
+        return ADC(arg, n=np.array(n) if cform == 'n:0d' else getattr(np, cform[2:])(n), otype=otype)
+    if cform == 'otype:str_':
+        return ADC(arg, n=n, otype=np.str_(otype))
+    if cform == 'otype:default':
+        assert otype == 'v'
+        return ADC(arg, n=n)
+    return ADC(arg, n=n, otype=otype)
 
 
 def adc_output(y):
@@ -453,9 +677,8 @@ def adc_output(y):
     return out
 
 
-def adc_judge(x, out, n, otype, cands, dt):
+def adc_judge(x, out, n, otype, cands, dt, eps=EPS):
     """try every minimal range x both quantiser models; -> (key|None, message, #samples outside the best range)"""
-    eps = EPS32 if dt == 'f4' else EPS
     best = None
     for (vmin, vmax) in cands:
         for model in ('tread', 'rise'):
@@ -492,22 +715,36 @@ def _digest(out):
     return (out.shape, str(out.dtype), hashlib.sha256(np.ascontiguousarray(out).tobytes()).hexdigest()[:16])
 
 
+def _degenerate(cands):
+    """every minimal range has zero width: a constant record (zero quantisation step) is outside the quantifier"""
+    return all(vmax == vmin for vmin, vmax in cands)
+
+
 def adc_case(case):
-    """one conversion of a freshly built input"""
-    kind, length, dt, n, otype, form, seed = case
+    """one conversion of a freshly built input; case = (family, length, dtype form, n, otype, input form, seed[, call form])"""
+    kind, length, dt, n, otype, form, seed = case[:7]
+    cform = case[7] if len(case) > 7 else 'kw'
     from mcx.core.env import gv_reset
-    from opticomlib.devices import ADC
-    gv_reset()
+    gv_reset(**GV_FORMS.get(cform, {}))
     np.random.seed(0)
-    arg, x = adc_input(kind, length, dt, form, seed)
-    name = f'ADC(<{kind} {dt} len={length} {form} seed={seed}>, n={n}, otype={otype!r})'
-    y = ADC(arg, n=n, otype=otype)
+    arg, x, wt = adc_input(kind, length, dt, form, seed)
+    cands = adc_candidates(x, wt)
+    if _degenerate(cands):
+        return res(obs='constant-input', nontrivial=False, stats={'adc_constant_inputs': 1})
+    name = f'ADC(<{kind} {dt} len={length} {form} seed={seed}>, n={n}, otype={otype!r})' + \
+           ('' if cform == 'kw' else f' spelled {cform!r}')
+    y = adc_call(arg, n, otype, cform)
     out = adc_output(y)
-    cands = adc_candidates(x)
-    key, msg, n_out = adc_judge(x, out, n, otype, cands, dt)
+    key, msg, n_out = adc_judge(x, out, n, otype, cands, dt, work_eps(wt))
+    if key and cform != 'kw':
+        # a failure of the plain keyword call keeps its key; one that only this spelling shows gets the key of the spelling
+        gv_reset()
+        arg0, _, _ = adc_input(kind, length, dt, form, seed)
+        if adc_judge(x, adc_output(adc_call(arg0, n, otype)), n, otype, cands, dt, work_eps(wt))[0] is None:
+            key, msg = f'ADC:call-form-dependent:{cform}', f'[{key}] ' + msg
     nlev = len(np.unique(out)) if out.ndim == 1 else 0
     stats = {'adc_cases': 1, 'adc_cases_with_outside_samples': int(n_out > 0), 'adc_candidate_ranges': len(cands)}
-    nt = (kind, length, dt, n, otype, form, n_out > 0) if nlev >= 2 else False
+    nt = (kind, length, dt, n, otype, form, cform, n_out > 0) if nlev >= 2 else False
     viol = [(key, f'{name}: {msg}')] if key else []
     return res(viol=viol, obs=_digest(out), nontrivial=nt, stats=stats)
 
@@ -521,13 +758,16 @@ def adc_sweep(case):
     from opticomlib.devices import ADC
     gv_reset()
     np.random.seed(0)
-    arg, x = adc_input(kind, length, dt, form, seed)
+    arg, x, wt = adc_input(kind, length, dt, form, seed)
     snap = freeze(arg)
     if not protect:
         for a in ([arg] if isinstance(arg, np.ndarray) else [getattr(arg, k, None) for k in ('signal', 'noise')]):
             if isinstance(a, np.ndarray):
                 a.flags.writeable = True
-    cands = adc_candidates(x)
+    cands = adc_candidates(x, wt)
+    if _degenerate(cands):
+        return res(obs='constant-input', nontrivial=False, stats={'adc_constant_inputs': 1}, payload={'calls': 0})
+    eps = work_eps(wt)
     base = f'<{kind} {dt} len={length} {form} seed={seed}{" write-protected" if protect else ""}>'
     viol, seen = [], set()
     digests = []
@@ -544,7 +784,7 @@ def adc_sweep(case):
             raise
         out = adc_output(y)
         digests.append(_digest(out))
-        key, msg, n_out = adc_judge(x, out, n, otype, cands, dt)
+        key, msg, n_out = adc_judge(x, out, n, otype, cands, dt, eps)
         n_outside = max(n_outside, n_out)
         if out.ndim == 1 and len(np.unique(out)) >= 2:
             n_multi += 1
@@ -573,19 +813,47 @@ def _batches(alpha, maxlen, pset='std'):
     return out
 
 
+def _merge_batches(ctx, part, cases, pay, single_fn, single_case):
+    """sub-case bookkeeping of a batched part: distinct outcomes / non-trivial tags, calls, and the first failing inputs of
+    every key re-registered as single replayable cases"""
+    total, seen = 0, {}
+    for c, p in zip(cases, pay):
+        if p is None:
+            continue
+        total += p['n']
+        for t in p['nt']:
+            ctx.nt_tags.add((part, t))
+        for o in p['outs']:
+            ctx.outcomes.add((part, o))
+        for key, f in p['fails'].items():
+            k = seen.setdefault(key, 0)
+            if k < 20:       # first (= simplest) failing inputs, as single replayable cases
+                seen[key] = k + 1
+                ctx.violation(part, key, f[-1], case=single_case(f), fn=single_fn)
+    ctx.evaluations += total - len(cases)
+    ctx.spaces[part + ':calls'] = total
+    return total
+
+
 def run(ctx):
     q = ctx.quick
     ctx.rule('shortest_int: every vector of length 1..Lmax over a 4-value alphabet (lexicographic, shortest first), each '
-             'with every percentage of the set (std {10,25,50,75,90,99.99}; edge = 14 values below 1, around 1, fractional, '
-             'close to 100); one worker call per (alphabet, length, 3-symbol prefix); '
+             'with every percentage of the set (std {10,25,50,75,90,99.99}; edge = 16 values below 1, around 1, fractional, '
+             'close to 100); one worker call per (alphabet, length, 3-symbol prefix); si-forms: every vector of length <= 4 (5) '
+             'over {0,1,2,3} in every (data spelling x percent spelling); si-lagscan: every (percent, length) with percent a '
+             'multiple of 1/2 (1/4) in (0,100) and length 2..200 (400) on three probe vectors; '
              'evaluations counts single shortest_int/ADC calls; seeded long vectors select content only via VERIF_SEED. '
-             'ADC: full product signal family x length x dtype form x n x otype x input form (fresh input per call), and '
-             'family x length x dtype form x input form x write-protection with all 24 (n, otype) applied to ONE input object')
+             'ADC: signal family x length x dtype/value form x n x otype x input form (fresh input per call; quick: the forms '
+             'added by the hardening pass run as a deviation lattice around the base forms, thorough: the full product), the '
+             'call spellings on a sub-product, and family x length x dtype form x input form x write-protection with all 24 '
+             '(n, otype) applied to ONE input object')
     ctx.assume('numpy sort/min/subtract are correct (the reference uses them on long vectors; python arithmetic on short ones)')
     ctx.assume('float subtraction is monotone, so "returned width > minimal width" in floats implies the same for the exact reals')
     ctx.assume('a constant signal (V_max == V_min, zero quantisation step) is outside the quantifier and is not enumerated')
+    ctx.assume('numpy 1.26 scalar promotion (value based): numpy integer scalars for n / percent do not wrap around')
 
     plan = [('int4', 8 if q else 9, 'std'), ('mix', 6 if q else 8, 'std'), ('tiny', 6 if q else 8, 'std'),
+            ('near', 6 if q else 8, 'std'), ('ulp', 6 if q else 8, 'std'),
             ('i64', 6 if q else 7, 'std'), ('i32s', 6 if q else 7, 'std'), ('u16', 6 if q else 7, 'std'),
             ('i16fs', 6 if q else 7, 'std'),
             ('int4', 7 if q else 8, 'edge'), ('i64', 6 if q else 7, 'edge')]
@@ -597,59 +865,95 @@ def run(ctx):
         print(f'[C18] {part}: {nvec} vectors x {npct} percents = {nvec * npct} calls in {len(cases)} batches',
               flush=True)
         pay = ctx.pmap(part, si_batch, cases, horizon=300, chunk=1, quiet=True)
-        total = 0
-        seen = {}
-        for c, p in zip(cases, pay):
-            if p is None:
-                continue
-            total += p['n']
-            for t in p['nt']:
-                ctx.nt_tags.add((part, t))
-            for o in p['outs']:
-                ctx.outcomes.add((part, o))
-            for key, (a, vec, pc, msg) in p['fails'].items():
-                k = seen.setdefault(key, 0)
-                if k < 20:       # first (= simplest) failing vectors, as single-vector replayable cases
-                    seen[key] = k + 1
-                    ctx.violation(part, key, msg, case=(a, tuple(vec), pc), fn=si_single)
+        total = _merge_batches(ctx, part, cases, pay, si_single, lambda f: (f[0], tuple(f[1]), f[2]))
         assert total == nvec * npct, (total, nvec)
-        ctx.evaluations += total - len(cases)
         ctx.spaces[part + ':vectors'] = nvec
-        ctx.spaces[part + ':calls'] = total
+
+    # argument spellings: (data form x percent form) x every vector of length 1..4 (5) over {0,1,2,3}
+    cases = [(length, d, p) for length in range(1, (4 if q else 5) + 1) for d in DATA_FORMS for p in PCT_FORMS]
+    print(f'[C18] si-forms: {len(DATA_FORMS)} data forms x {len(PCT_FORMS)} percent forms, {len(cases)} batches', flush=True)
+    pay = ctx.pmap('si-forms', si_forms_batch, cases, horizon=300, quiet=True)
+    _merge_batches(ctx, 'si-forms', cases, pay, si_form_single, lambda f: (tuple(f[0]), f[1], f[2], f[3]))
+
+    # the lag clause: every (percent, length) pair of a grid, incl. all pairs whose product is an exact multiple of 100
+    cases = [(n, q) for n in range(2, (200 if q else 400) + 1)]
+    print(f'[C18] si-lagscan: {len(cases)} lengths x {len(scan_percents(q))} percents x {len(SCAN_KINDS)} vectors', flush=True)
+    pay = ctx.pmap('si-lagscan', si_scan_batch, cases, horizon=300, quiet=True)
+    _merge_batches(ctx, 'si-lagscan', cases, pay, si_scan_single, lambda f: (f[0], f[1], f[2]))
 
     kinds = ('gauss', 'uniform', 'quant16')
     ikinds = ('gauss@i4', 'quant16@i8', 'uniform@i2', 'gauss@u2', 'gauss@f4', 'gauss_out@i2fs')     # raw-count / float32 records
+    # 8-bit / float16 records, scales 1e-12 .. 1e6, large offsets with a small (down to ulp-sized) variation
+    xkinds = ('gauss_out@i1', 'gauss@u1', 'gauss@f2', 'gauss@x1e-12', 'uniform@x1e-9', 'quant16@x1e-6', 'gauss@x1e6',
+              'gauss@o1e6', 'uniform@o1e9', 'gauss@ulp', 'quant16@ulp')
     lens = (10 ** 4, 2 ** 17)
     long_cases = [(k, n, p, ctx.seed + j) for n in lens for k in kinds for p in PERCENTS
                   for j in range(1 if q else 4)]
     # (p, n) pairs whose product is an exact multiple of 100 while (p/100)*n rounds below it
     long_cases += [(k, n, p, ctx.seed) for n in (50, 100, 200, 800) for k in kinds for p in (29, 57, 58, 7, 14, 28)]
-    long_cases += [(k, n, 99.99, ctx.seed) for n in (10 ** 4, 2 * 10 ** 4, 3 * 10 ** 4) for k in kinds]
+    long_cases += [(k, n, 99.99, ctx.seed) for n in (9999, 10 ** 4, 10 ** 4 + 1, 2 * 10 ** 4, 3 * 10 ** 4) for k in kinds]
     # integer-dtype / float32 records with the standard percentages
     long_cases += [(k, n, p, ctx.seed + j) for n in lens for k in ikinds for p in PERCENTS for j in range(1 if q else 2)]
     # edge percentages on records long enough for a lag >= 1 below 1 % (lag 0 on the shortest ones)
     long_cases += [(k, n, p, ctx.seed + j) for n in (64, 200, 2000, 10 ** 4, 2 ** 17) for k in kinds + ikinds[:2]
                    for p in PERCENTS_EDGE for j in range(1 if q else 2)]
+    long_cases += [(k, n, p, ctx.seed + j) for n in (3, 200, 10 ** 4 + 1) + ((2 ** 17,) if not q else ()) for k in xkinds
+                   for p in PERCENTS + (0.5, 12.5) for j in range(1 if q else 2)]
     ctx.pmap('si-long', si_long, long_cases, horizon=120)
 
-    # quick tier: the float64 form runs every length; the other dtype forms skip 9999 (same lag class as 10000) and leave
-    # 2^17 to the sweeps (float64: both protections; i4/u2/i2fs: unprotected).  thorough: the full product.
-    def single_lengths(dt):
-        return ADC_LENGTHS if (dt == 'f8' or not q) else tuple(L for L in ADC_LENGTHS if L not in (9999, 2 ** 17))
+    # ---- ADC, single conversions.  thorough: the full product.  quick: the base block (7 dtype forms x 3 input forms, as
+    # before the hardening pass) and, around it, one deviation at a time: a new dtype / value form with the base input forms,
+    # a new input form with four dtype forms; both with every second bit depth; 9999 / 127 / 1024 / 2^17 only for float64
+    # (2^17 for the other forms is left to the sweeps)
+    NS_THIN = (1, 2, 5, 8, 11, 12)
 
-    def sweep_member(dt, L, prot):
-        if not q or dt == 'f8':
+    def single_lengths(dt):
+        return ADC_LENGTHS if (dt == 'f8' or not q) else ADC_LENGTHS_THIN
+
+    def single_cells():
+        for dt in ADC_DTYPES:
+            for f in ADC_FORMS:
+                new_dt, new_f = dt in ADC_DTYPES_NEW, f in ADC_FORMS_NEW
+                if not q or not (new_dt or new_f):
+                    yield dt, f, single_lengths(dt), ADC_NS
+                elif new_dt != new_f and (new_dt or dt in ('f8', 'i4', 'f4', 'u2')):
+                    yield dt, f, ADC_LENGTHS_THIN, NS_THIN
+
+    def nseeds(dt, f):      # thorough: three seeds for the base block, one for the cells the hardening pass added
+        return 1 if q or dt in ADC_DTYPES_NEW or f in ADC_FORMS_NEW else 3
+
+    adc_cases = [(k, L, dt, n, o, f, ctx.seed + j) for j in range(3) for dt, f, Ls, ns in single_cells() if j < nseeds(dt, f)
+                 for L in Ls for k in ADC_KINDS for n in ns for o in ('n', 'v')]
+    ctx.pmap('adc', adc_case, adc_cases, horizon=120)
+
+    # ---- ADC, spellings of the call (each alone and combined with one other deviation: integer counts, a noise component)
+    cf_cases = [(k, L, dt, n, o, f, ctx.seed, cf)
+                for cf in ADC_CALLFORMS[1:] for dt in (('f8', 'i4') if q else ('f8', 'i4', 'u2', 'f4'))
+                for L in ((3, 100, 10001, 20000) if q else (3, 100, 10001, 20000, 2 ** 17)) for k in ADC_KINDS
+                for f in (('ndarray', 'container+noise') if q else ADC_FORMS) for n in (1, 8, 12) for o in ('n', 'v')
+                if not (cf == 'otype:default' and o == 'n')]
+    ctx.pmap('adc-callforms', adc_case, cf_cases, horizon=120)
+
+    def sweep_member(dt, f, L, prot):
+        if not q:
+            return True
+        new_dt, new_f = dt in ADC_DTYPES_NEW, f in ADC_FORMS_NEW
+        if new_dt and new_f:
+            return False
+        if new_dt:                 # writable form, input forms ndarray / container+noise; 2^17 for 'ulp' and int8
+            return (not prot and f != 'container' and
+                    L in ADC_LENGTHS_THIN + ((2 ** 17,) if dt in ('ulp', 'i1') and f == 'ndarray' else ()))
+        if new_f:
+            return dt in ('f8', 'i4') and L in ADC_LENGTHS_THIN + ((2 ** 17,) if (dt == 'f8' and not prot) else ())
+        if dt == 'f8':
             return True
         if L == 2 ** 17:
             return dt in ('i4', 'u2', 'i2fs') and not prot
-        return L != 9999
+        return L in ADC_LENGTHS_THIN
 
-    adc_cases = [(k, L, dt, n, o, f, ctx.seed + j) for j in range(1 if q else 3) for dt in ADC_DTYPES
-                 for L in single_lengths(dt) for k in ADC_KINDS for f in ADC_FORMS for n in ADC_NS for o in ('n', 'v')]
-    ctx.pmap('adc', adc_case, adc_cases, horizon=120)
-
-    sweep_cases = [(k, L, dt, f, prot, ctx.seed + j) for j in range(1 if q else 2) for dt in ADC_DTYPES for L in ADC_LENGTHS
-                   for k in ADC_KINDS for f in ADC_FORMS for prot in (False, True) if sweep_member(dt, L, prot)]
+    sweep_cases = [(k, L, dt, f, prot, ctx.seed + j) for j in range(2) for dt in ADC_DTYPES for L in ADC_LENGTHS
+                   for k in ADC_KINDS for f in ADC_FORMS for prot in (False, True)
+                   if sweep_member(dt, f, L, prot) and j < min(2, nseeds(dt, f))]
     pay = ctx.pmap('adc-sweep', adc_sweep, sweep_cases, horizon=300)
     ncalls = sum(p['calls'] for p in pay if p)
     ctx.evaluations += ncalls - len(sweep_cases)
